@@ -194,7 +194,7 @@ func init() {
 		Harnesses: func(tier string) []HarnessSpec {
 			hs := []HarnessSpec{
 				{Name: "writer-reader-roundtrip", Pkg: "remote", Func: "ZZ_C15_RoundTrip", Params: pm("N", tierSel(tier, 2, 3), "SL", 2, "WIRE", 0),
-					Witnesses: []string{"mixed-nil-sender", "unserialisable"}, Deadline: 30 * time.Minute},
+					Witnesses: []string{"mixed-nil-sender", "unserialisable", "zero-length-payload", "sender-is-also-a-target"}, Deadline: 30 * time.Minute},
 				{Name: "writer-codec-reader-roundtrip", Pkg: "remote", Func: "ZZ_C15_RoundTrip", Params: pm("N", 2, "SL", 2, "WIRE", 1),
 					Witnesses: []string{"mixed-nil-sender", "unserialisable"}, Deadline: 30 * time.Minute},
 			}
@@ -212,7 +212,7 @@ func init() {
 			return hs
 		},
 		Bounds: func(tier string) string {
-			return fmt.Sprintf("(a) batches of 1..%d messages to 2 targets on the receiving node; per message: sender absent or a PID whose address and id are symbolic strings of 1..2 bytes each (equal senders and senders differing only in the address/id split included), one of 2 type names, symbolic payload byte, symbolic 'cannot be serialised' flag; the Envelope is handed over in memory; (b) the same with batches of 1..2 and the Envelope carried as the bytes of the real MarshalVT and decoded by the real UnmarshalVT; (c) the generated codec alone (SizeVT, MarshalVT, UnmarshalVT of Envelope/Message/PID): one message whose TypeNameIndex / SenderIndex / TargetIndex in turn ranges over all of int32 (every varint length class, negative = 10 bytes) while the others range over 0..127, 0..2 symbolic payload bytes%s", tierSel(tier, 2, 3), map[string]string{"quick": "", "thorough": "; thorough: all three indices wide at once, two messages with one wide index each, and table shapes 0..2 x 0..2 x 0..1"}[tier])
+			return fmt.Sprintf("(a) batches of 1..%d messages to 2 targets on the receiving node; per message: sender absent, one of the target PIDs, or a PID whose address and id are symbolic strings of 1..2 bytes each (equal senders and senders differing only in the address/id split included), one of 2 type names, symbolic payload byte, symbolic 'cannot be serialised' and 'serialises to zero bytes' flags; the Envelope is handed over in memory; (b) the same with batches of 1..2 and the Envelope carried as the bytes of the real MarshalVT and decoded by the real UnmarshalVT; (c) the generated codec alone (SizeVT, MarshalVT, UnmarshalVT of Envelope/Message/PID): one message whose TypeNameIndex / SenderIndex / TargetIndex in turn ranges over all of int32 (every varint length class, negative = 10 bytes) while the others range over 0..127, 0..2 symbolic payload bytes%s", tierSel(tier, 2, 3), map[string]string{"quick": "", "thorough": "; thorough: all three indices wide at once, two messages with one wide index each, and table shapes 0..2 x 0..2 x 0..1"}[tier])
 		},
 		Outside:     []string{"protobuf marshalling of the payloads (ProtoSerializer, protobuf reflection): serializer/deserializer are stubs", "DRPC framing", "a payload that is not a proto.Message (ProtoSerializer.TypeName type assertion)", "targets on several addresses (one stream writer serves one address)", "longer batches and strings", "codec: three or more simultaneously multi-byte indices across several messages"},
 		Assumptions: seqAssume("writer = real streamWriter.Invoke with a stub stream/conn; reader = real streamReader.Receive on a bare engine with recording processes; xxh3.Hash, where still used, is an uninterpreted function with injectivity instances"),
@@ -243,10 +243,10 @@ func init() {
 	reg(&PropSpec{
 		ID: "C02",
 		Harnesses: func(tier string) []HarnessSpec {
-			return []HarnessSpec{inbox(2, tier), l2(2, 2, 2, 1, "restart")}
+			return []HarnessSpec{inbox(2, tier), l2(2, 2, 2, 1, "restart", "restart-during-spawn")}
 		},
 		Bounds: func(tier string) string {
-			return fmt.Sprintf("inbox unit: %d senders x 2 messages, Start racing, preemption bound 2, receiver yields inside every Invoke; process unit: spawner (Initialized/Started on its goroutine) + 2 senders x 2 messages, one symbolic crash (restart on the worker goroutine), receiver yields twice inside every Receive; overlap = a second Receive/Invoke entered while one is active; happens-before: the receiver declares an unsynchronised write to its state at every entry and the executor's vector-clock race detector (edges: atomics, mutexes, go, channel operations) must find every pair of entries ordered, and no unordered plain/atomic conflict in the repository's own accesses", tierSel(tier, 2, 3))
+			return fmt.Sprintf("inbox unit: %d senders x 2 messages, Start racing, preemption bound 2, receiver yields inside every Invoke; process unit: spawner (Initialized/Started on its goroutine) + 2 senders x 2 messages, one symbolic crash - a user message (restart on the worker goroutine) or the first incarnation's Started handler (restart on the spawning goroutine while senders already push) -, receiver yields twice inside every Receive; overlap = a second Receive/Invoke entered while one is active; happens-before: the receiver declares an unsynchronised write to its state at every entry and the executor's vector-clock race detector (edges: atomics, mutexes, go, channel operations) must find every pair of entries ordered, and no unordered plain/atomic conflict in the repository's own accesses", tierSel(tier, 2, 3))
 		},
 		Outside:     []string{"Stop/Poison callers", "more goroutines / preemptions", "a data race reported by the executor's detector cannot be confirmed by native replay and is trusted (the detector's edges are those of the sync/atomic models)"},
 		Assumptions: thrAssume("units as for C01"),
@@ -335,10 +335,10 @@ func init() {
 		ID: "C19",
 		Harnesses: func(tier string) []HarnessSpec {
 			return []HarnessSpec{{Name: "multi-agent-history", Pkg: "cluster", Func: "ZZ_C19", Preempt: 0, Params: pm("N", tierSel(tier, 2, 3), "K", 3),
-				Witnesses: []string{"remote-activation", "duplicate-activation", "deactivate", "join-with-active-actors", "leave-with-hosted-actor", "cluster-spawn"}, Deadline: 60 * time.Minute}}
+				Witnesses: []string{"remote-activation", "duplicate-activation", "deactivate", "join-with-active-actors", "leave-with-hosted-actor", "cluster-spawn", "deactivate-of-an-inactive-actor"}, Deadline: 60 * time.Minute}}
 		},
 		Bounds: func(tier string) string {
-			return fmt.Sprintf("%d nodes, each registering kind 'a' or not (symbolic), the last one joining later; quiescent histories of 3 operations (activate a/x or a/y from any member with the select function picking any offered member and returning it either as the offered pointer or as a Member value of its own (symbolic), deactivate any active actor from any member, late join, leave of a member other than node 0, a Cluster.Spawn-style announcement of an actor b/z hosted on any member whatever its kinds; operation symbolic), notifications delivered in every arrival order before the next operation", tierSel(tier, 2, 3))
+			return fmt.Sprintf("%d nodes, each registering kind 'a' or not (symbolic), the last one joining later; quiescent histories of 3 operations (activate a/x or a/y from any member with the select function picking any offered member and returning it either as the offered pointer or as a Member value of its own (symbolic), deactivate any active actor from any member, late join, leave of a member other than node 0, a Cluster.Spawn-style announcement of an actor ab/z (kind name prefix-related to "a") hosted on any member whatever its kinds, Deactivate of a PID that is not active; operation symbolic), notifications delivered in every arrival order before the next operation", tierSel(tier, 2, 3))
 		},
 		Outside:     []string{"non-quiescent histories (operations overlapping their notifications)", "Cluster.Activate/GetActiveByID request plumbing: the agents are driven by the same messages those methods send", "Cluster.Spawn's own plumbing (Members() request): the harness spawns on the node's engine and sends the same Activation notifications", "more kinds / ids / members / operations", "SelectRandomMember (a harness select function picks every offered member instead)"},
 		Assumptions: seqAssume("each node: real Agent on a bare engine; network: synchronous in-memory Remoter delivering to the target node's registry; ActivationRequest/activate/getActive are handled at once (their senders block on them), all other agent messages are queued and drained in a harness-chosen order; activated actors are real processes spawned by Engine.Spawn (preemption bound 0: their inbox workers run when the harness blocks or quiesces)"),
